@@ -19,6 +19,7 @@ package main
 
 import (
 	"bytes"
+	"fmt"
 
 	"github.com/go-gts/gts"
 )
@@ -101,20 +102,22 @@ func c06RawWrapper(s []byte, pos, depth int) (*rawLoc, int, bool) {
 	return nil, 0, false
 }
 
-// value re-builds the node with the real constructors; hit collects joinK3 over every join's parts.
-func (n *rawLoc) value(hit *bool) gts.Location {
+// value re-builds the node with the real constructors; hit collects joinK3 over every join's parts,
+// joins the argument list of every Join call of the reading.
+func (n *rawLoc) value(hit *bool, joins *[][]gts.Location) gts.Location {
 	if n.kind == 0 {
 		return n.leaf
 	}
 	vs := make([]gts.Location, len(n.parts))
 	for i, c := range n.parts {
-		vs[i] = c.value(hit)
+		vs[i] = c.value(hit, joins)
 	}
 	switch n.kind {
 	case 'J':
 		if joinK3(vs) {
 			*hit = true
 		}
+		*joins = append(*joins, vs)
 		return gts.Join(vs...)
 	case 'O':
 		return gts.Order(vs...)
@@ -124,22 +127,109 @@ func (n *rawLoc) value(hit *bool) gts.Location {
 
 // c06ParseK3: the parse-level K3 guard of an accepted text; ok = the reading validated.
 func c06ParseK3(s []byte) (hit, ok bool) {
+	hit, _, ok = c06ParseJoins(s)
+	return
+}
+
+// c06ParseJoins: the same, with the argument lists (parsed parts) of every join( of the text.
+func c06ParseJoins(s []byte) (hit bool, joins [][]gts.Location, ok bool) {
 	defer func() {
 		if recover() != nil {
-			hit, ok = false, false
+			hit, joins, ok = false, nil, false
 		}
 	}()
 	l, rest, err := parseLocRest(s)
 	if err != nil {
-		return false, false
+		return false, nil, false
 	}
 	n, end, good := c06Raw(s, 0, 0)
 	if !good || end != len(s)-len(rest) {
-		return false, false
+		return false, nil, false
 	}
-	v := n.value(&hit)
+	v := n.value(&hit, &joins)
 	if encLoc(v) != encLoc(l) {
-		return false, false
+		return false, nil, false
 	}
-	return hit, true
+	return hit, joins, true
+}
+
+// c06NonWf: some Ranged / Ambiguous in l has End <= Start (an inverted or empty span: text `5..4`).
+func c06NonWf(l gts.Location) bool {
+	switch v := l.(type) {
+	case gts.Ranged:
+		return v.End <= v.Start
+	case gts.Ambiguous:
+		return v.End <= v.Start
+	case gts.Joined:
+		for _, u := range v {
+			if c06NonWf(u) {
+				return true
+			}
+		}
+	case gts.Ordered:
+		for _, u := range v {
+			if c06NonWf(u) {
+				return true
+			}
+		}
+	case gts.Complemented:
+		return c06NonWf(v.Location)
+	}
+	return false
+}
+
+// c06ParsedJoins: every join( of an accepted text keeps the residues its parsed parts denote
+// (Gts.C06.join_den_partial needs wfList: an inverted span `a..b`, b < a, is ACCEPTED by the parser and a
+// point in front of it is absorbed into the empty range — known finding K6A, join_den_nonwf_refuted).
+func c06ParsedJoins(r *Run, line string, joins [][]gts.Location) {
+	for _, vs := range joins {
+		args := ""
+		var want []pos
+		nonwf := false
+		for _, p := range vs {
+			args += " " + encLoc(p)
+			want = append(want, den(p)...)
+			nonwf = nonwf || c06NonWf(p)
+		}
+		got := gts.Join(vs...)
+		g := den(got)
+		r.count("string/join-parts")
+		if nonwf {
+			r.count("string/join-parts-nonwf")
+		}
+		if refines(g, want) {
+			continue
+		}
+		f := Failure{Oracle: "a join( of an accepted text keeps the set and order of the residues its parsed parts denote", Op: line,
+			Got: encLoc(got) + " den=" + denStr(g), Want: denStr(want)}
+		if nonwf {
+			f.Finding = "K6A"
+		} else {
+			f.Guard = "k2.join" + args
+		}
+		r.fail(f)
+	}
+}
+
+// c06InvertedScope: joins whose parts include inverted / empty ranges `a..b` with b <= a - 1, every small case.
+func c06InvertedScope(r *Run) {
+	n := 0
+	for a := 1; a <= 4; a++ {
+		for b := 1; b <= 4; b++ {
+			rg := fmt.Sprintf("%d..%d", a, b)
+			for p := 1; p <= 4; p++ {
+				for _, t := range []string{
+					fmt.Sprintf("join(%d,%s)", p, rg), fmt.Sprintf("join(%s,%d)", rg, p),
+					fmt.Sprintf("join(%d^%d,%s)", p, p+1, rg), fmt.Sprintf("join(%s,%d^%d)", rg, p, p+1),
+					fmt.Sprintf("join(%d..%d,%s)", p, p+1, rg), fmt.Sprintf("join(%s,%d..%d)", rg, p, p+1),
+					fmt.Sprintf("join(%d.%d,%d)", a, b, p), fmt.Sprintf("join(%d,%d.%d)", p, a, b),
+					fmt.Sprintf("complement(join(%d,%s))", p, rg), fmt.Sprintf("join(9,order(join(%d,%s),7))", p, rg),
+				} {
+					c06String(r, []byte(t))
+					n++
+				}
+			}
+		}
+	}
+	r.notes = append(r.notes, fmt.Sprintf("inverted spans inside joins: %d texts join(p,a..b) / join(a..b,p) / with sites, ranges, ambiguous spans, nested; a, b, p in 1..4", n))
 }
